@@ -116,3 +116,7 @@ def r1_no_consumer_discards(chk):
 def run(chk):
     chk.undecided = ["that decoding itself is independent of stream cuts (value-level; see C03)"]
     r1_no_consumer_discards(chk)
+    from rules.common import rule_gate_closes_after_stage
+    r2 = chk.rule("R2", "a greeting stage closes its re-entry gate only when the stage is finished", "T3 region + T4",
+                  "in the ZMTP engine's byte-driven handlers, inside a region guarded by a gate on self.<field>, no assignment of that field is followed (within the region) by a need-more-bytes early return; otherwise the outcome depends on where a read boundary falls")
+    rule_gate_closes_after_stage(chk, r2, r"protocol::zmtp::engine::ZmtpEngine::process_\w+$", r"network_read_accumulator", 3)
